@@ -57,6 +57,8 @@ def build():
         return eng.fresh(st, TStr, "sanitized")
 
     def n_ast_parse(eng, args, kw, n, st):
+        if set(kw) - {"mode"}:           # an opaque syntax tree whatever the mode
+            raise OutOfSubset(n, "ast.parse with an option other than mode=")
         k = Contract("ast.parse", params={"s": "Str"}, returns=NODE, trusted=True, raises={"SyntaxError": None})
         r = eng.apply_contract(k, args[:1], {}, n, st)
         return r
